@@ -555,6 +555,19 @@ func (c *ctx) replay(lines []string) error {
 				return err
 			}
 			c.serve(string(b), "replay")
+		case "nego":
+			if len(f) != 6 {
+				return fmt.Errorf("bad replay line %q", l)
+			}
+			var chunks []string
+			for _, h := range strings.Split(f[4], ";") {
+				b, err := common.UnHex(h)
+				if err != nil {
+					return err
+				}
+				chunks = append(chunks, string(b))
+			}
+			c.nego(negoWitness{role: f[2], mechs: f[3], chunks: chunks}, "replay")
 		case "scen":
 			if len(f) != 4 {
 				return fmt.Errorf("bad replay line %q", l)
